@@ -145,7 +145,7 @@ class Ctx:
         self._n = 0
 
     # ------------------------------------------------------------------ TLC
-    def tlc(self, module, cfg, workers=None, timeout=600, simulate=None, depth=None,
+    def tlc(self, module, cfg, workers=None, timeout=1800, simulate=None, depth=None,
             seed=None, extra=(), files=None, heap=None, deadlock=True, coverage=False,
             jvm=(), check=True, name=None, overrides=None):
         """Run TLC on specs/<module>.tla with specs/<cfg>. Returns TLCResult.
@@ -269,12 +269,12 @@ class Ctx:
             cmd += ["-tags", tags]
         cmd += ["./" + pkg]
         p = subprocess.run(cmd, cwd=REPO, env=self.go_env(), stdout=subprocess.PIPE,
-                           stderr=subprocess.STDOUT, text=True, errors="replace", timeout=1200)
+                           stderr=subprocess.STDOUT, text=True, errors="replace", timeout=3600)
         if p.returncode != 0 or not os.path.exists(out):
             raise Infra("harness build failed for %s:\n%s" % (pkg, p.stdout[-4000:]))
         return out
 
-    def run_bin(self, binary, run, env=None, timeout=600, cwd=None, args=()):
+    def run_bin(self, binary, run, env=None, timeout=1800, cwd=None, args=()):
         cmd = [binary, "-test.run", run, "-test.count=1", "-test.timeout", "%ds" % (timeout + 30),
                "-test.v"] + list(args)
         try:
